@@ -7,6 +7,8 @@ tornado's own request-side httputil.parse_cookie / _unquote_cookie on the cookie
 would send back.  Oracle: call raised, or exactly one Set-Cookie for the name whose pair parses back
 to {name: value} and whose attribute list is exactly the requested one.
 """
+from typing import List, Tuple
+
 from vp.api import P, harness, in_shard, reached
 from vp.env import install
 from vp.fakestream import FakeStream
@@ -83,7 +85,7 @@ def _check(cookies, name, value, kw, httponly, secure):
 
 
 _STUBS = ["handler built directly on a real HTTP1Connection over FakeStream (no request parsing/routing)",
-          "fixed time.time(); logging disabled",
+          "fixed time.time() and datetime.now() as seen by tornado.web; logging disabled",
           "the Set-Cookie values are read from the HTTPHeaders handed to the real write_headers "
           "(which still encodes/validates them); the client's echo is the cookie-pair before the first ';'",
           "symbolic strings are taken as bytes and decoded as latin-1 (code points 0..255)"]
@@ -215,6 +217,125 @@ def h_cookie_attr(which: int, ab: bytes, httponly: bool, secure: bool):
     if a:
         reached("attr_sent")
     _check(cookies, "n", "v", kw, httponly, secure)
+
+
+# =========================================================================== call histories
+H_NAMES = ("a", "b")
+H_VALUES = ("v", 'w;"x')
+# attribute choice of a step: (kwargs, valid?) - validity per the statement: an attribute that cannot be
+# carried verbatim in a Set-Cookie header (';', space, control) must make the call raise
+H_ATTRS = (
+    ({}, True),
+    ({"domain": "d.e"}, True),
+    ({"path": "/p", "secure": True}, True),
+    ({"domain": "d;x"}, False),
+    ({"path": "/p q"}, False),
+    ({"samesite": "lax\n"}, False),
+)
+
+
+def pre_hist(steps: List[Tuple[int, int, int, int]]) -> bool:
+    if not (1 <= len(steps) <= P.N):
+        return False
+    for op, ni, vi, ai in steps:
+        if not (0 <= op <= 1 and 0 <= ni <= 1 and 0 <= vi <= 1 and 0 <= ai < P.AT):
+            return False
+        if op == 1 and vi != 0:
+            return False          # clear_cookie takes no value
+    return in_shard(steps[0][3] + P.AT * steps[0][0] + 2 * P.AT * (steps[1][3] % 3 if len(steps) > 1 else 0))
+
+
+def _hist_may_reach(tag, steps):
+    ok = [H_ATTRS[ai][1] for op, ni, vi, ai in steps]
+    if tag == "cleared":
+        return steps[-1][0] == 1 and ok[-1]
+    if len(steps) < 2:
+        return tag == "sent"
+    same = steps[0][1] == steps[1][1]
+    if tag == "later_call_rejected_first_kept":
+        return ok[0] and not ok[1] and same and steps[1][0] == 0
+    if tag == "rejected_clear_first_kept":
+        return ok[0] and not ok[1] and same and steps[1][0] == 1
+    if tag == "overwritten_last_wins":
+        return ok[0] and ok[1] and same
+    if tag == "two_names":
+        return ok[0] and ok[1] and not same
+    return True
+
+
+@harness(
+    pre=pre_hist,
+    quick=dict(N=2, AT=6, timeout=150, reach_timeout=60),
+    thorough=dict(N=3, AT=6, timeout=1500, reach_timeout=120),
+    nshards=dict(quick=12, thorough=36),
+    reach=["later_call_rejected_first_kept", "overwritten_last_wins", "cleared", "two_names",
+           "rejected_clear_first_kept"],
+    units=["web.RequestHandler.set_cookie", "web.RequestHandler.clear_cookie",
+           "web.RequestHandler.flush (Set-Cookie emission)", "http.cookies.SimpleCookie/Morsel",
+           "httputil.parse_cookie"],
+    stubs=_STUBS + ["names, values and attribute values are pooled (by symbolic index); the history (length, "
+                    "set vs clear, name, value, valid/invalid attribute per step) is the symbolic part; "
+                    "exceptions of a step are caught by the handler, as an application would"],
+    outside=_OUTSIDE + ["histories longer than N calls", "the Expires date of clear_cookie (only its presence)"],
+)
+def h_cookie_history(steps: List[Tuple[int, int, int, int]]):
+    """A response's cookies = the fold of the SUCCESSFUL set_cookie/clear_cookie calls only (a call
+    that raises has no effect), last setting per name wins, exactly one Set-Cookie per name."""
+    if P.reach is not None and not _hist_may_reach(P.reach, steps):
+        return      # reach-twin steering only: necessary condition from the inputs; tag raised after the real run
+    model = {}          # name -> (value, kwargs, cleared)
+    with install() as env:
+        h, conn, st = make_handler(env)
+        for op, ni, vi, ai in steps:
+            name = H_NAMES[ni]
+            kw, valid = H_ATTRS[ai]
+            raised = False
+            try:
+                if op == 0:
+                    h.set_cookie(name, H_VALUES[vi], **kw)
+                else:
+                    h.clear_cookie(name, **kw)
+            except Exception:
+                raised = True
+            if raised:
+                if name in model:
+                    reached("rejected_clear_first_kept" if op == 1 else "later_call_rejected_first_kept")
+                continue
+            assert valid, "%s(%r, **%r) accepted an attribute that cannot be carried" % (
+                ("set_cookie", "clear_cookie")[op], name, kw)
+            if name in model:
+                reached("overwritten_last_wins")
+            model[name] = (H_VALUES[vi] if op == 0 else "", kw, op == 1)
+        h.finish()
+        cookies = conn.rec_cookies
+        assert conn.rec_code == 200
+    if len(model) == 2:
+        reached("two_names")
+    assert len(cookies) == len(model), "Set-Cookie headers %r, successful settings %r" % (cookies, model)
+    seen = set()
+    for sc in cookies:
+        pair, attrs = split_set_cookie(sc)
+        back = httputil.parse_cookie(pair)
+        assert len(back) == 1, "cookie-pair %r reads back as %r" % (pair, back)
+        name = list(back)[0]
+        assert name in model and name not in seen, "unexpected / duplicate cookie %r in %r" % (name, cookies)
+        seen.add(name)
+        value, kw, cleared = model[name]
+        assert back[name] == value, "%r reads back %r, last successful setting was %r" % (sc, back[name], value)
+        want = [("path", kw.get("path", "/"))]
+        if kw.get("domain"):
+            want.append(("domain", kw["domain"]))
+        if kw.get("secure"):
+            want.append(("secure", None))
+        if kw.get("samesite"):
+            want.append(("samesite", kw["samesite"]))
+        got = [(k, v) for k, v in attrs if k != "expires"]
+        nexp = len(attrs) - len(got)
+        if cleared:
+            reached("cleared")
+        assert nexp == (1 if cleared else 0), "Expires attribute count %d in %r (cleared=%r)" % (nexp, sc, cleared)
+        assert sorted(got, key=lambda t: t[0]) == sorted(want, key=lambda t: t[0]), \
+            "attributes %r, last successful setting asked %r (header %r)" % (attrs, want, sc)
 
 
 def pre_maxage(max_age: int) -> bool:
